@@ -58,9 +58,11 @@ func (x *userGuardian) Receive(ctx *ReceiveContext) {
 			x.logger.Infof("actor=%s started successfully", x.pid.Name())
 		}
 	case *Terminated:
+		// Terminated travels through the system mailbox and can be served before
+		// PostStart, which is what sets x.logger and x.pid: use the context's own
 		actorID := msg.ActorPath()
-		if x.logger.Enabled(log.DebugLevel) {
-			x.logger.Debugf("actor=%s received terminated actor=%s", x.pid.Name(), actorID)
+		if logger := ctx.Logger(); logger.Enabled(log.DebugLevel) {
+			logger.Debugf("actor=%s received terminated actor=%s", ctx.Self().Name(), actorID)
 		}
 		// pass
 	default:
